@@ -560,6 +560,15 @@ func readerBase(a *Analyzer, c *FCtx, al *ssa.Alloc, depth int) *Term {
 				case *ssa.Call:
 					if sc := x.Call.StaticCallee(); sc != nil && sc.Signature.Recv() != nil && funcPkgPath(sc) == modPath+"/spec/types/go/protocol" && len(x.Call.Args) > 0 {
 						recvs = append(recvs, c.Term(x.Call.Args[0]))
+					} else if sc != nil {
+						// a copying helper: the readers it is handed
+						for _, arg := range x.Call.Args {
+							if p, ok := arg.Type().Underlying().(*types.Pointer); ok {
+								if nt, ok := p.Elem().(*types.Named); ok && nt.Obj().Pkg() != nil && nt.Obj().Pkg().Path() == modPath+"/spec/types/go/protocol" {
+									recvs = append(recvs, c.Term(arg))
+								}
+							}
+						}
 					}
 				}
 			}
